@@ -187,7 +187,10 @@ fn check(prop: &str, tier: Tier) -> CheckOutcome {
     std::thread::spawn(move || {
         std::thread::sleep(std::time::Duration::from_secs(cap));
         eprintln!("HARNESS-ERROR: wall-clock cap of {cap}s exceeded");
-        std::process::exit(2);
+        extern "C" {
+            fn _exit(status: i32) -> !;
+        }
+        unsafe { _exit(2) }
     });
 
     let known = match known::load(&format!("{}/known_findings.txt", verif_dir())) {
@@ -562,5 +565,14 @@ fn main() {
             2
         }
     };
-    std::process::exit(code);
+    // Leave without running exit handlers: sacrificial threads of the wall-clock watchdog
+    // (only ever created against a changed tree) may still be spinning inside the code
+    // under test, and tearing the process state down underneath them can crash.
+    use std::io::Write;
+    let _ = std::io::stdout().flush();
+    let _ = std::io::stderr().flush();
+    extern "C" {
+        fn _exit(status: i32) -> !;
+    }
+    unsafe { _exit(code) }
 }
